@@ -292,51 +292,65 @@ func genServe(r *hx.Rng, tier string) Case {
 		}
 	}
 	nops := r.Range(4, 24)
-	for i := 0; i < nops; i++ {
-		switch r.Pick(76, 6, 12, 6) {
+	genRead := func() Op {
+		o := Op{Op: "read", File: r.Intn(8), Reopen: r.Chance(1, 3)}
+		size := 0
+		if len(regs) > 0 {
+			size = regs[r.Intn(len(regs))]
+		}
+		cs := c.ChunkSize
+		switch r.Pick(3, 4, 2, 2, 3) {
 		case 0:
-			o := Op{Op: "read", File: r.Intn(8), Reopen: r.Chance(1, 3)}
-			size := 0
-			if len(regs) > 0 {
-				size = regs[r.Intn(len(regs))]
-			}
-			cs := c.ChunkSize
-			switch r.Pick(3, 4, 2, 2, 3) {
-			case 0:
-				o.Off = 0
-			case 1:
-				o.Off = int64(cs*r.Intn(4) + r.Range(-1, 1))
-			case 2:
-				o.Off = int64(size + r.Range(-2, 2))
-			case 3:
-				o.Off = int64(size + r.Intn(3*cs+5))
-			case 4:
-				o.Off = int64(r.Intn(size + 1))
-			}
-			if o.Off < 0 {
-				o.Off = 0
-			}
-			switch r.Pick(1, 2, 4, 3, 3, 2) {
-			case 0:
-				o.Len = 0
-			case 1:
-				o.Len = 1
-			case 2:
-				o.Len = int64(cs*r.Range(1, 3) + r.Range(-1, 1))
-			case 3:
-				o.Len = int64(size)
-			case 4:
-				o.Len = int64(r.Intn(size + cs + 2))
-			case 5:
-				o.Len = int64(size + r.Intn(2*cs+10))
-			}
-			if o.Len < 0 {
-				o.Len = 0
-			}
-			if o.Len > 2000 {
-				o.Len = 2000
+			o.Off = 0
+		case 1:
+			o.Off = int64(cs*r.Intn(4) + r.Range(-1, 1))
+		case 2:
+			o.Off = int64(size + r.Range(-2, 2))
+		case 3:
+			o.Off = int64(size + r.Intn(3*cs+5))
+		case 4:
+			o.Off = int64(r.Intn(size + 1))
+		}
+		if o.Off < 0 {
+			o.Off = 0
+		}
+		switch r.Pick(1, 2, 4, 3, 3, 2) {
+		case 0:
+			o.Len = 0
+		case 1:
+			o.Len = 1
+		case 2:
+			o.Len = int64(cs*r.Range(1, 3) + r.Range(-1, 1))
+		case 3:
+			o.Len = int64(size)
+		case 4:
+			o.Len = int64(r.Intn(size + cs + 2))
+		case 5:
+			o.Len = int64(size + r.Intn(2*cs+10))
+		}
+		if o.Len < 0 {
+			o.Len = 0
+		}
+		if o.Len > 2000 {
+			o.Len = 2000
+		}
+		return o
+	}
+	for i := 0; i < nops; i++ {
+		wpar := 0
+		if c.Cache != "mem" {
+			wpar = 5
+		}
+		switch r.Pick(76, 6, 12, 6, wpar) {
+		case 4:
+			o := Op{Op: "par"}
+			for j := r.Range(2, 8); j > 0; j-- {
+				x := genRead()
+				o.Par = append(o.Par, ParRead{File: x.File, Off: x.Off, Len: x.Len})
 			}
 			c.Ops = append(c.Ops, o)
+		case 0:
+			c.Ops = append(c.Ops, genRead())
 		case 1:
 			c.Ops = append(c.Ops, Op{Op: "prefetch"})
 		case 2:
